@@ -664,6 +664,10 @@ def list_extend(ip, a, b):
     c = ip.c
     if isinstance(b, tuple):
         b = ip.new_list(list(b))
+    if isinstance(b, Sym) and b.t.sort() == Val:
+        b = ip.resolve_untyped(b) if (b.ty or "val") == "val" else ip.resolve(b)
+        if b is None:
+            ip.py_raise(TypeError, "'NoneType' object is not iterable")
     if isinstance(a, PList) and a.ref is None and isinstance(b, PList) and b.ref is None:
         if a.frozen:
             raise Unsupported("mutation of module table data")
